@@ -160,6 +160,7 @@ func main() {
 	maxPaths := fs.Int("max-paths", 2000000, "path budget per entry")
 	maxSeconds := fs.Int("max-seconds", 900, "wall-clock budget per entry (exceeded = truncated = inconclusive)")
 	maxLen := fs.Int("max-len", 8, "default bound for symbolic allocation lengths")
+	seed := fs.Int64("seed", 0, "seed for the sampling of alternative counterexamples (verdicts do not depend on it)")
 	qlog := fs.String("qlog", "", "directory for per-worker SMT-LIB logs (cross-solver re-check)")
 	trace := fs.Bool("trace", false, "trace calls")
 	noMergeF := fs.Bool("no-merge", false, "disable if-conversion of pure diamonds (debugging / cross-check)")
@@ -226,7 +227,7 @@ func main() {
 	eng := &engine{
 		prog: prog, hpkg: hpkg, repoPrefix: modPrefix,
 		models: map[string]*ssa.Function{}, noInit: map[string]string{},
-		maxSteps: *maxSteps, maxChoices: *maxChoices, maxAlloc: 16 << 20, maxLen: *maxLen, maxPaths: *maxPaths, maxSeconds: *maxSeconds, qlogDir: *qlog,
+		maxSteps: *maxSteps, maxChoices: *maxChoices, maxAlloc: 16 << 20, maxLen: *maxLen, maxPaths: *maxPaths, maxSeconds: *maxSeconds, qlogDir: *qlog, seed: *seed,
 		workers: *workers, solverBin: *solver, solverTimeout: *timeout, fset: prog.Fset,
 		covered: map[string]bool{}, allFuncs: map[*ssa.Function]bool{}, allNotes: map[string]bool{}, lazyInits: map[string]bool{},
 		thorough: *thorough,
